@@ -484,7 +484,65 @@ func goPwRW(us []fUser) string {
 	}
 	var b2 bytes.Buffer
 	_ = back.Write(&b2)
+	// the same through a file system, the way the build does it: the file already exists with LONGER contents
+	// (an earlier, larger account set), is rewritten with WriteFile and read back with ReadOrCreateUserFile
+	if ftext, fback, ok := pwThroughFS(uf.Entries, text); !ok || ftext != text || wUsers(fback) != wUsers(back.Entries) {
+		return hx(ftext) + "|file:" + wUsers(fback) + "|" + hx(b2.String())
+	}
 	return hx(text) + "|" + wUsers(back.Entries) + "|" + hx(b2.String())
+}
+
+const formatsOldTail = "old1:x:4001:4001:left over:/home/old1:/bin/sh\nold2:x:4002:4002::/:/sbin/nologin\n"
+
+func pwThroughFS(entries []passwd.UserEntry, text string) (string, []passwd.UserEntry, bool) {
+	fsys := apkfs.NewMemFS()
+	_ = fsys.MkdirAll("etc", 0o755)
+	if err := fsys.WriteFile("etc/passwd", []byte(text+formatsOldTail), 0o644); err != nil {
+		return "", nil, false
+	}
+	uf, err := passwd.ReadOrCreateUserFile(fsys, "etc/passwd")
+	if err != nil {
+		// the longer previous contents do not parse (the entries themselves are unreadable): nothing to compare
+		return text, nil, text != "" && false
+	}
+	uf.Entries = entries
+	if err := uf.WriteFile("etc/passwd"); err != nil {
+		return "", nil, false
+	}
+	b, err := fsys.ReadFile("etc/passwd")
+	if err != nil {
+		return "", nil, false
+	}
+	back, err := passwd.ReadOrCreateUserFile(fsys, "etc/passwd")
+	if err != nil {
+		return string(b), nil, false
+	}
+	return string(b), back.Entries, true
+}
+
+func grThroughFS(entries []passwd.GroupEntry, text string) (string, []passwd.GroupEntry, bool) {
+	fsys := apkfs.NewMemFS()
+	_ = fsys.MkdirAll("etc", 0o755)
+	if err := fsys.WriteFile("etc/group", []byte(text+"oldgroup:x:4001:old1,old2\nnogroup2:x:65533:nobody\n"), 0o644); err != nil {
+		return "", nil, false
+	}
+	gf, err := passwd.ReadOrCreateGroupFile(fsys, "etc/group")
+	if err != nil {
+		return text, nil, false
+	}
+	gf.Entries = entries
+	if err := gf.WriteFile(fsys, "etc/group"); err != nil {
+		return "", nil, false
+	}
+	b, err := fsys.ReadFile("etc/group")
+	if err != nil {
+		return "", nil, false
+	}
+	back, err := passwd.ReadOrCreateGroupFile(fsys, "etc/group")
+	if err != nil {
+		return string(b), nil, false
+	}
+	return string(b), back.Entries, true
 }
 
 func goGrRW(gs []fGroup) string {
@@ -503,6 +561,9 @@ func goGrRW(gs []fGroup) string {
 	}
 	var b2 bytes.Buffer
 	_ = back.Write(&b2)
+	if ftext, fback, ok := grThroughFS(gf.Entries, text); !ok || ftext != text || wGroups(fback) != wGroups(back.Entries) {
+		return hx(ftext) + "|file:" + wGroups(fback) + "|" + hx(b2.String())
+	}
 	return hx(text) + "|" + wGroups(back.Entries) + "|" + hx(b2.String())
 }
 
